@@ -518,6 +518,10 @@ def step_body(par, lay, pid, L, p):
             inv.append(z3.ULE(tot, z3.ZeroExt(2, off2.t)))
             A.require("both", z3.And(*inv), "brace-invariant", "the invariant of the template brace stack is not re-established", token=nm, depth=d2)
             out.seen("brace-stack-depth-%d-after" % d2)
+            d0 = conc_or_none(sel.t) if dmax else 0
+            m0 = ctx.last_model
+            if dmax and m0 is not None:
+                out.seen("brace-stack-depth-%d-before" % m0.eval(sel.t, model_completion=True).as_long())
             o2 = off2.conc()
             if o2 is not None:
                 out.seen("brace-stack-touched")
@@ -1042,17 +1046,20 @@ def run2(pid, tier, t0, par, lay, nat):
         bodies["skel/%s" % nm] = whole_body(par, lay, pid, "skel", "skel/%s %r" % (nm, pat), skeleton_spec(pat, cfg["skel_k"]))
     dt, np_ = explore(bodies, 9)
     log("[%s] lines<=%d, whole<=%d, %d skeletons with %d free bytes: %d paths in %.1fs" % (pid, cfg["lines"], cfg["whole"], len(SKELETONS), cfg["skel_k"], np_, dt))
-    # 2. step family: grow the text length while the time budget permits
-    reached, last_dt = 0, 0.0
-    for L in range(1, cfg["step_max"] + 1):
-        if L > cfg["step_min"]:
-            spent = time.time() - t_expl
-            predicted = last_dt * 7.0
-            if spent + predicted > cfg["budget_s"]:
-                log("[%s] step family stops at L=%d: %.0fs spent, next length predicted %.0fs, budget %ds" % (pid, reached, spent, predicted, cfg["budget_s"]))
-                break
-        bodies = {"step/L=%d/p=%d" % (L, p): step_body(par, lay, pid, L, p) for p in range(L)}
-        last_dt, np_ = explore(bodies, 9)
+    # 2. step family: lengths up to step_min in one go, then grow the text length while the time budget permits
+    def step_bodies(lengths):
+        return {"step/L=%d/p=%d" % (L, p): step_body(par, lay, pid, L, p) for L in lengths for p in range(L)}
+    last_dt, np_ = explore(step_bodies(range(1, cfg["step_min"] + 1)), 9)
+    reached = cfg["step_min"]
+    log("[%s] step L<=%d: %d paths in %.1fs" % (pid, reached, np_, last_dt))
+    last_dt *= 0.72          # share of the longest length in a geometric series of ratio ~3.5
+    for L in range(cfg["step_min"] + 1, cfg["step_max"] + 1):
+        spent = time.time() - t_expl
+        predicted = last_dt * 3.6
+        if spent + predicted > cfg["budget_s"]:
+            log("[%s] step family stops at L=%d: %.0fs spent, next length predicted %.0fs, budget %ds" % (pid, reached, spent, predicted, cfg["budget_s"]))
+            break
+        last_dt, np_ = explore(step_bodies([L]), 9)
         reached = L
         log("[%s] step L=%d: %d paths in %.1fs" % (pid, L, np_, last_dt))
     return finish(pid, tier, t0, cfg, reached, results, nat, nval, n_lex_texts, n_line_texts)
@@ -1121,11 +1128,15 @@ def finish(pid, tier, t0, cfg, reached, results, nat, nval, n_lex_texts, n_line_
     need = ["identifier", "keyword", "number-with-suffix", "string-or-char-with-escape", "error:UnclosedString", "error:UnclosedComment", "error:UnclosedChar",
             "error:UnknownChar", "multi-byte-character-inside-string", "multi-byte-character-2", "multi-byte-character-3", "multi-byte-character-4",
             "token:TEMPLATE_LITERAL", "token:TEMPLATE_END_LITERAL", "token:FLOAT_LITERAL", "token:MULTILINE_COMMENT", "token:LINE_COMMENT",
-            "token:NEWLINE", "token:WHITESPACE", "token:GT_GT_GT_EQ", "brace-stack-touched", "brace-stack-depth-0-after", "brace-stack-depth-2-after",
+            "token:NEWLINE", "token:WHITESPACE", "token:GT_GT_GT_EQ", "brace-stack-touched", "brace-stack-depth-0-after", "brace-stack-depth-1-after",
             "eof-checked", "text-with-crlf", "text-with-lone-cr", "text-with-lf", "line-column-roundtrip-checked", "offset-on-later-line",
             "line-contents-checked"]
     if reached >= 5 or cfg["skel_k"] >= 3:
         need.append("astral-character-inside-string")
+    if reached >= 6:
+        need.append("brace-stack-depth-2-after")     # `"${` read with one level already open needs a cursor >= 3 and 3 more bytes
+    if reached >= 7:
+        need.append("brace-stack-depth-2-before")    # two levels open need a cursor >= 6
     if not rep.new and not rep.known_hit:
         for k in need:
             if not vac.get(k):
